@@ -1,4 +1,5 @@
 import AgModel.Proofs.FinalityWalk
+import AgModel.Proofs.FinalityEvents
 /-!
 # Every operation of the tracker keeps `Rel` and does not panic under the safety premise
 -/
@@ -117,6 +118,43 @@ theorem rel_set {H : List Op} {t : Tracker} {op : Op} {s : Nat} {v : Status} (r 
     · rw [(hsk' t.first).mpr e]; exact dec_skipped
 
 
+/-! ### events are justified by the history -/
+
+/-- everything an event reports is in the naive closure of the history -/
+def EvSound (H : List Op) (ev : Event) : Prop :=
+  (∀ b, b ∈ evF ev → Final H b) ∧ (∀ s, s ∈ ev.implSkipped → Skip H s)
+
+theorem evSound_empty (H : List Op) : EvSound H {} :=
+  ⟨(fun _ h => by cases h), (fun _ h => by cases h)⟩
+
+theorem walk_evsound {H' : List Op} {f : Nat} {t : Tracker} {src : Nat} {blk : Nat × Nat} {ev : Event}
+    {t' : Tracker} {ev' : Event} (h : walk f t src blk ev = some (t', ev')) (r : Rel H' t') :
+    (∀ b, b ∈ ev'.implFinalized → b ∈ ev.implFinalized ∨ Final H' b) ∧
+    (∀ s, s ∈ ev'.implSkipped → s ∈ ev.implSkipped ∨ Skip H' s) := by
+  obtain ⟨F, S, e1, e2, sp⟩ := walk_evspec h
+  have w := walk_spec h
+  have hge : ∀ x, Dec (t'.status x) → ¬ Dec (t.status x) → t'.first ≤ x := by
+    intro x d n
+    rw [w.first]
+    rcases w.evolves x with e | ⟨l, _, _, _⟩
+    · rw [e] at d; exact absurd d n
+    · exact l
+  constructor
+  · intro b hb
+    rw [e1] at hb
+    rcases List.mem_append.mp hb with hb | hb
+    · exact Or.inl hb
+    · right
+      have ⟨n, e⟩ := sp.fin b hb
+      exact slotOK_final (r.slot b.1 (hge _ (dec_of_finalHash e) n)) e
+  · intro x hx
+    rw [e2] at hx
+    rcases List.mem_append.mp hx with hx | hx
+    · exact Or.inl hx
+    · right
+      have ⟨n, e⟩ := sp.skip x hx
+      exact slotOK_skip (r.slot x (hge _ (e ▸ dec_skipped) n)) e
+
 /-! ### direct finalization (`handle_finalized_block`) -/
 
 section
@@ -124,10 +162,10 @@ variable {G : List Op} (sf : Safe G)
 include sf
 
 theorem hfb_rel {H : List Op} {op : Op} (hsub : Sub (H ++ [op]) G) {t : Tracker} (r : Rel H t)
-    {blk : Nat × Nat} (ev0 : Event) (hop : op.certSlot = some blk.1) (hw : t.first ≤ blk.1)
+    {blk : Nat × Nat} (hop : op.certSlot = some blk.1) (hw : t.first ≤ blk.1)
     (hnd : ¬ Dec (t.status blk.1)) (hdir : Direct (H ++ [op]) blk) :
-    ∃ t' ev, handleFinalizedBlock { t with status := setSt t.status blk.1 (.finalized blk.2) } blk ev0 = .ok t' ev ∧
-      Rel (H ++ [op]) t' := by
+    ∃ t' ev, handleFinalizedBlock { t with status := setSt t.status blk.1 (.finalized blk.2) } blk {} = .ok t' ev ∧
+      Rel (H ++ [op]) t' ∧ EvSound (H ++ [op]) ev := by
   have hs : Sub H (H ++ [op]) := sub_append_left H op
   have hsG : Sub H G := hs.trans hsub
   have hblkF : Final (H ++ [op]) blk := .direct hdir
@@ -182,7 +220,7 @@ theorem hfb_rel {H : List Op} {op : Op} (hsub : Sub (H ++ [op]) G) {t : Tracker}
       subst this
       have h1' : t.parents c = some p := h1
       exact absurd (hpend (by rw [h1']; intro e; cases e)) h4
-  generalize hr : handleFinalizedBlock { t with status := setSt t.status blk.1 (.finalized blk.2) } blk ev0 = res
+  generalize hr : handleFinalizedBlock { t with status := setSt t.status blk.1 (.finalized blk.2) } blk {} = res
   simp only [handleFinalizedBlock] at hr
   split at hr
   · rename_i p hp
@@ -202,19 +240,37 @@ theorem hfb_rel {H : List Op} {op : Op} (hsub : Sub (H ++ [op]) G) {t : Tracker}
       · intro ⟨hfin, _⟩
         exact hnd (dec_of_finalHash (r.final_complete sf hsG hfin hw))
     obtain ⟨t2, ev2, hw2, rel2⟩ := walk_rel sf hsub hs blk.1 _ blk.1 blk.2 p
-      { finalized := some blk, implFinalized := ev0.implFinalized, implSkipped := ev0.implSkipped } wh (Nat.le_refl _)
+      { finalized := some blk, implFinalized := [], implSkipped := [] } wh (Nat.le_refl _)
     split at hr
     · rename_i t3 ev3 hw3
       rw [hw2] at hw3
       cases hw3
-      exact ⟨_, _, hr.symm, rel_prune rel2⟩
+      have hsd := walk_evsound hw2 rel2
+      have hfz := walk_finalized hw2
+      refine ⟨_, _, hr.symm, rel_prune rel2, ?_, ?_⟩
+      · intro b hb
+        unfold evF at hb
+        rw [hfz] at hb
+        rcases List.mem_append.mp hb with hb | hb
+        · have : b = blk := by simpa using hb
+          rw [this]; exact hblkF
+        · rcases hsd.1 b hb with h | h
+          · cases h
+          · exact h
+      · intro x hx
+        rcases hsd.2 x hx with h | h
+        · cases h
+        · exact h
     · rename_i hw3
       rw [hw2] at hw3
       cases hw3
   · rename_i hp
     have hp' : t.parents blk = none := hp
-    refine ⟨_, _, hr.symm, rel_prune ?_⟩
-    exact ⟨slot1, par1, closed1 _ _ (fun h => absurd hp' h), wdec1⟩
+    refine ⟨_, _, hr.symm, rel_prune ⟨slot1, par1, closed1 _ _ (fun h => absurd hp' h), wdec1⟩, ?_, ?_⟩
+    · intro b hb
+      have : b = blk := by simpa [evF] using hb
+      rw [this]; exact hblkF
+    · intro x hx; cases hx
 
 end
 
@@ -233,7 +289,7 @@ include sf
 
 theorem markFastFinalized_rel {H : List Op} {blk : Nat × Nat} (hsub : Sub (H ++ [.fastFinal blk]) G)
     {t : Tracker} (r : Rel H t) :
-    ∃ t' ev, markFastFinalized t blk = .ok t' ev ∧ Rel (H ++ [.fastFinal blk]) t' := by
+    ∃ t' ev, markFastFinalized t blk = .ok t' ev ∧ Rel (H ++ [.fastFinal blk]) t' ∧ EvSound (H ++ [.fastFinal blk]) ev := by
   have hs : Sub H (H ++ [Op.fastFinal blk]) := sub_append_left H _
   have hop : (Op.fastFinal blk).certSlot = some blk.1 := rfl
   have hdir : Direct (H ++ [Op.fastFinal blk]) blk := Or.inl (fastH_snoc.mpr (Or.inr rfl))
@@ -242,7 +298,7 @@ theorem markFastFinalized_rel {H : List Op} {blk : Nat × Nat} (hsub : Sub (H ++
   simp only [markFastFinalized] at hr
   split at hr
   · rename_i hlow
-    refine ⟨_, _, hr.symm, rel_snoc_same r ?_ ?_⟩
+    refine ⟨_, _, hr.symm, rel_snoc_same r ?_ ?_, evSound_empty _⟩
     · intro s a e; cases e; omega
     · intro c p _ e; cases e
   rename_i hlow
@@ -264,32 +320,32 @@ theorem markFastFinalized_rel {H : List Op} {blk : Nat × Nat} (hsub : Sub (H ++
   · rename_i h hst
     have e : finalHash (t.status blk.1) = some h := by rw [hst]; rfl
     rw [if_pos (hfin h e)] at hr
-    exact ⟨_, _, hr.symm, hkeep h e⟩
+    exact ⟨_, _, hr.symm, hkeep h e, evSound_empty _⟩
   · rename_i h hst
     have e : finalHash (t.status blk.1) = some h := by rw [hst]; rfl
     rw [if_pos (hfin h e)] at hr
-    exact ⟨_, _, hr.symm, hkeep h e⟩
+    exact ⟨_, _, hr.symm, hkeep h e, evSound_empty _⟩
   · rename_i h hst
     rw [hst] at ok
     have := sf.notar_final (blk.1, h) blk (ok.1.mono (hs.trans hsub)) (hblkF.mono hsub) rfl
     have hh : h = blk.2 := by rw [← this]
     rw [if_pos hh] at hr
-    obtain ⟨t', ev, h1, h2⟩ := hfb_rel sf hsub r {} hop hw (by rw [hst]; simp [dec_some, Status.decided]) hdir
+    obtain ⟨t', ev, h1, h2⟩ := hfb_rel sf hsub r hop hw (by rw [hst]; simp [dec_some, Status.decided]) hdir
     exact ⟨t', ev, hr.symm.trans h1, h2⟩
   · rename_i hst
-    obtain ⟨t', ev, h1, h2⟩ := hfb_rel sf hsub r {} hop hw (by rw [hst]; simp [dec_some, Status.decided]) hdir
+    obtain ⟨t', ev, h1, h2⟩ := hfb_rel sf hsub r hop hw (by rw [hst]; simp [dec_some, Status.decided]) hdir
     exact ⟨t', ev, hr.symm.trans h1, h2⟩
   · rename_i hst
     rw [hst] at ok
     exact absurd (Skip.mono (hs.trans hsub) ok) (sf.final_not_skip (hblkF.mono hsub))
   · rename_i hst
-    obtain ⟨t', ev, h1, h2⟩ := hfb_rel sf hsub r {} hop hw (by rw [hst]; exact not_dec_none) hdir
+    obtain ⟨t', ev, h1, h2⟩ := hfb_rel sf hsub r hop hw (by rw [hst]; exact not_dec_none) hdir
     exact ⟨t', ev, hr.symm.trans h1, h2⟩
 
 
 theorem markNotarized_rel {H : List Op} {blk : Nat × Nat} (hsub : Sub (H ++ [.notar blk]) G)
     {t : Tracker} (r : Rel H t) :
-    ∃ t' ev, markNotarized t blk = .ok t' ev ∧ Rel (H ++ [.notar blk]) t' := by
+    ∃ t' ev, markNotarized t blk = .ok t' ev ∧ Rel (H ++ [.notar blk]) t' ∧ EvSound (H ++ [.notar blk]) ev := by
   have hs : Sub H (H ++ [Op.notar blk]) := sub_append_left H _
   have hop : (Op.notar blk).certSlot = some blk.1 := rfl
   have hN : NotarH (H ++ [Op.notar blk]) blk := notarH_snoc.mpr (Or.inr rfl)
@@ -298,7 +354,7 @@ theorem markNotarized_rel {H : List Op} {blk : Nat × Nat} (hsub : Sub (H ++ [.n
   simp only [markNotarized] at hr
   split at hr
   · rename_i hlow
-    refine ⟨_, _, hr.symm, rel_snoc_same r ?_ ?_⟩
+    refine ⟨_, _, hr.symm, rel_snoc_same r ?_ ?_, evSound_empty _⟩
     · intro s a e; cases e; omega
     · intro c p _ e; cases e
   rename_i hlow
@@ -325,7 +381,7 @@ theorem markNotarized_rel {H : List Op} {blk : Nat × Nat} (hsub : Sub (H ++ [.n
   split at hr
   · rename_i hst
     rw [hst] at ok
-    refine ⟨_, _, hr.symm, rel_set r hop (by rw [hst]; rfl) ?_ ⟨hN, hnF ok.1, hnFF ok.2.2⟩⟩
+    refine ⟨_, _, hr.symm, rel_set r hop (by rw [hst]; rfl) ?_ ⟨hN, hnF ok.1, hnFF ok.2.2⟩, evSound_empty _⟩
     constructor
     · intro e; cases e
     · intro e; rw [hst] at e; cases e
@@ -334,27 +390,27 @@ theorem markNotarized_rel {H : List Op} {blk : Nat × Nat} (hsub : Sub (H ++ [.n
     have := sf.notar_fun (blk.1, h) blk (ok.1.mono (hs.trans hsub)) (hN.mono hsub) rfl
     have hh : h = blk.2 := by rw [← this]
     rw [if_pos hh] at hr
-    refine ⟨_, _, hr.symm, rel_set r hop (by rw [hst]; rfl) ?_ ⟨hN, hnF ok.2.1, hnFF ok.2.2⟩⟩
+    refine ⟨_, _, hr.symm, rel_set r hop (by rw [hst]; rfl) ?_ ⟨hN, hnF ok.2.1, hnFF ok.2.2⟩, evSound_empty _⟩
     constructor
     · intro e; cases e
     · intro e; rw [hst] at e; cases e
   · rename_i h hst
     rw [if_pos (hfinal h (by rw [hst]; rfl))] at hr
-    exact ⟨_, _, hr.symm, hdecided (by rw [hst]; exact dec_some.mpr rfl)⟩
+    exact ⟨_, _, hr.symm, hdecided (by rw [hst]; exact dec_some.mpr rfl), evSound_empty _⟩
   · rename_i h hst
     rw [if_pos (hfinal h (by rw [hst]; rfl))] at hr
-    exact ⟨_, _, hr.symm, hdecided (by rw [hst]; exact dec_some.mpr rfl)⟩
+    exact ⟨_, _, hr.symm, hdecided (by rw [hst]; exact dec_some.mpr rfl), evSound_empty _⟩
   · rename_i hst
-    exact ⟨_, _, hr.symm, hdecided (by rw [hst]; exact dec_skipped)⟩
+    exact ⟨_, _, hr.symm, hdecided (by rw [hst]; exact dec_skipped), evSound_empty _⟩
   · rename_i hst
     rw [hst] at ok
     have hdir : Direct (H ++ [Op.notar blk]) blk := Or.inr ⟨ok.1.mono hs, hN⟩
-    obtain ⟨t', ev, h1, h2⟩ := hfb_rel sf hsub r {} hop hw (by rw [hst]; simp [dec_some, Status.decided]) hdir
+    obtain ⟨t', ev, h1, h2⟩ := hfb_rel sf hsub r hop hw (by rw [hst]; simp [dec_some, Status.decided]) hdir
     exact ⟨t', ev, hr.symm.trans h1, h2⟩
 
 theorem markFinalized_rel {H : List Op} {slot : Nat} (hsub : Sub (H ++ [.final slot]) G)
     {t : Tracker} (r : Rel H t) :
-    ∃ t' ev, markFinalized t slot = .ok t' ev ∧ Rel (H ++ [.final slot]) t' := by
+    ∃ t' ev, markFinalized t slot = .ok t' ev ∧ Rel (H ++ [.final slot]) t' ∧ EvSound (H ++ [.final slot]) ev := by
   have hs : Sub H (H ++ [Op.final slot]) := sub_append_left H _
   have hop : (Op.final slot).certSlot = some slot := rfl
   have hF : FinH (H ++ [Op.final slot]) slot := finH_snoc.mpr (Or.inr rfl)
@@ -363,7 +419,7 @@ theorem markFinalized_rel {H : List Op} {slot : Nat} (hsub : Sub (H ++ [.final s
   simp only [markFinalized] at hr
   split at hr
   · rename_i hlow
-    refine ⟨_, _, hr.symm, rel_snoc_same r ?_ ?_⟩
+    refine ⟨_, _, hr.symm, rel_snoc_same r ?_ ?_, evSound_empty _⟩
     · intro s a e; cases e; omega
     · intro c p _ e; cases e
   rename_i hlow
@@ -386,24 +442,24 @@ theorem markFinalized_rel {H : List Op} {slot : Nat} (hsub : Sub (H ++ [.final s
   split at hr
   · rename_i hst
     rw [hst] at ok
-    refine ⟨_, _, hr.symm, rel_set r hop (by rw [hst]; rfl) ?_ ⟨hF, hnN ok.2.1, hnFF ok.2.2⟩⟩
+    refine ⟨_, _, hr.symm, rel_set r hop (by rw [hst]; rfl) ?_ ⟨hF, hnN ok.2.1, hnFF ok.2.2⟩, evSound_empty _⟩
     constructor
     · intro e; cases e
     · intro e; rw [hst] at e; cases e
   · rename_i hst
     rw [hst] at ok
-    refine ⟨_, _, hr.symm, rel_set r hop (by rw [hst]) ?_ ⟨hF, hnN ok.2.1, hnFF ok.2.2⟩⟩
+    refine ⟨_, _, hr.symm, rel_set r hop (by rw [hst]) ?_ ⟨hF, hnN ok.2.1, hnFF ok.2.2⟩, evSound_empty _⟩
     constructor
     · intro e; cases e
     · intro e; rw [hst] at e; cases e
   · rename_i h hst
-    exact ⟨_, _, hr.symm, hdecided (by rw [hst]; exact dec_some.mpr rfl)⟩
+    exact ⟨_, _, hr.symm, hdecided (by rw [hst]; exact dec_some.mpr rfl), evSound_empty _⟩
   · rename_i h hst
-    exact ⟨_, _, hr.symm, hdecided (by rw [hst]; exact dec_some.mpr rfl)⟩
+    exact ⟨_, _, hr.symm, hdecided (by rw [hst]; exact dec_some.mpr rfl), evSound_empty _⟩
   · rename_i h hst
     rw [hst] at ok
     have hdir : Direct (H ++ [Op.final slot]) (slot, h) := Or.inr ⟨hF, ok.1.mono hs⟩
-    obtain ⟨t', ev, h1, h2⟩ := hfb_rel sf hsub r (blk := (slot, h)) {} hop hw
+    obtain ⟨t', ev, h1, h2⟩ := hfb_rel sf hsub r (blk := (slot, h)) hop hw
       (by rw [hst]; simp [dec_some, Status.decided]) hdir
     exact ⟨t', ev, hr.symm.trans h1, h2⟩
   · rename_i hst
@@ -413,7 +469,7 @@ theorem markFinalized_rel {H : List Op} {slot : Nat} (hsub : Sub (H ++ [.final s
 
 theorem addParent_rel {H : List Op} {blk par : Nat × Nat} (hsub : Sub (H ++ [.parent blk par]) G)
     {t : Tracker} (r : Rel H t) :
-    ∃ t' ev, addParent t blk par = .ok t' ev ∧ Rel (H ++ [.parent blk par]) t' := by
+    ∃ t' ev, addParent t blk par = .ok t' ev ∧ Rel (H ++ [.parent blk par]) t' ∧ EvSound (H ++ [.parent blk par]) ev := by
   have hs : Sub H (H ++ [Op.parent blk par]) := sub_append_left H _
   have hsG : Sub H G := hs.trans hsub
   have hL : LinkH (H ++ [Op.parent blk par]) blk par := linkH_snoc.mpr (Or.inr rfl)
@@ -424,7 +480,7 @@ theorem addParent_rel {H : List Op} {blk par : Nat × Nat} (hsub : Sub (H ++ [.p
   · omega
   split at hr
   · rename_i hlow
-    refine ⟨_, _, hr.symm, rel_snoc_same r ?_ ?_⟩
+    refine ⟨_, _, hr.symm, rel_snoc_same r ?_ ?_, evSound_empty _⟩
     · intro s a e; cases e
     · intro c p a e; cases e; omega
   rename_i hlow
@@ -434,7 +490,7 @@ theorem addParent_rel {H : List Op} {blk par : Nat × Nat} (hsub : Sub (H ++ [.p
     have hlp : LinkH H blk p := (r.par blk p hw).mp hp
     have : p = par := sf.link_fun blk p par (hlp.mono hsG) (hL.mono hsub)
     rw [if_pos this] at hr
-    refine ⟨_, _, hr.symm, rel_snoc_same r ?_ ?_⟩
+    refine ⟨_, _, hr.symm, rel_snoc_same r ?_ ?_, evSound_empty _⟩
     · intro s a e; cases e
     · intro c q a e; cases e; rw [← this]; exact hlp
   rename_i hvac
@@ -479,7 +535,7 @@ theorem addParent_rel {H : List Op} {blk par : Nat × Nat} (hsub : Sub (H ++ [.p
         | some (t2, ev) => Res.ok (prune t2) ev
         | none => Res.panic
        else Res.ok { t with parents := setPar t.parents blk par } {}) = res →
-      ∃ t' ev, res = .ok t' ev ∧ Rel (H ++ [.parent blk par]) t' := by
+      ∃ t' ev, res = .ok t' ev ∧ Rel (H ++ [.parent blk par]) t' ∧ EvSound (H ++ [.parent blk par]) ev := by
     intro hh e hr
     split at hr
     · rename_i heq
@@ -500,12 +556,24 @@ theorem addParent_rel {H : List Op} {blk par : Nat × Nat} (hsub : Sub (H ++ [.p
       · rename_i t3 ev3 hw3
         rw [hw2] at hw3
         cases hw3
-        exact ⟨_, _, hr.symm, rel_prune rel2⟩
+        have hsd := walk_evsound hw2 rel2
+        have hfz := walk_finalized hw2
+        refine ⟨_, _, hr.symm, rel_prune rel2, ?_, ?_⟩
+        · intro b hb
+          unfold evF at hb
+          rw [hfz] at hb
+          rcases hsd.1 b (by simpa using hb) with h | h
+          · cases h
+          · exact h
+        · intro x hx
+          rcases hsd.2 x hx with h | h
+          · cases h
+          · exact h
       · rename_i hw3
         rw [hw2] at hw3
         cases hw3
     · rename_i hne
-      refine ⟨_, _, hr.symm, ⟨slot1, par1, closed1 _ ?_, r.wdec⟩⟩
+      refine ⟨_, _, hr.symm, ⟨slot1, par1, closed1 _ ?_, r.wdec⟩, evSound_empty _⟩
       intro e'
       rw [e] at e'
       exact absurd (Option.some.inj e').symm hne
@@ -515,7 +583,7 @@ theorem addParent_rel {H : List Op} {blk par : Nat × Nat} (hsub : Sub (H ++ [.p
   · rename_i hh hst
     exact hfin hh (by rw [show t.status blk.1 = some (.implFinalized hh) from hst]; rfl) hr
   · rename_i hn1 hn2
-    refine ⟨_, _, hr.symm, ⟨slot1, par1, closed1 _ ?_, r.wdec⟩⟩
+    refine ⟨_, _, hr.symm, ⟨slot1, par1, closed1 _ ?_, r.wdec⟩, evSound_empty _⟩
     intro e
     have e' : finalHash (t.status blk.1) = some blk.2 := e
     cases hst : t.status blk.1 with
@@ -530,8 +598,9 @@ theorem addParent_rel {H : List Op} {blk par : Nat × Nat} (hsub : Sub (H ++ [.p
       | implSkipped => cases e'
 
 /-- Every operation: no panic, and `Rel` for the extended history. -/
-theorem step_rel {H : List Op} {op : Op} (hsub : Sub (H ++ [op]) G) {t : Tracker} (r : Rel H t) :
-    ∃ t' ev, step t op = .ok t' ev ∧ Rel (H ++ [op]) t' := by
+theorem step_rel {H : List Op} {op : Op} (hsub : Sub (H ++ [op]) G) {t : Tracker} (r : Rel H t)
+    :
+    ∃ t' ev, step t op = .ok t' ev ∧ Rel (H ++ [op]) t' ∧ EvSound (H ++ [op]) ev := by
   cases op with
   | parent b p => exact addParent_rel sf hsub r
   | fastFinal b => exact markFastFinalized_rel sf hsub r
